@@ -50,7 +50,7 @@ Proof. exact wire_step. Qed.
 
 Example c06_instance :
   mp_wire (fun p => p) 240 [(bs "content-type", bs "t")] [(0, 2); (3, 5)] =
-  bs (String "013" (String "010" "--B")) ++ [13;10] ++ bs "Content-Range: bytes 0-1/240" ++ [13;10] ++ bs "content-type: t" ++ [13;10;13;10] ++ [0;1]
+  [13;10] ++ bs "--B" ++ [13;10] ++ bs "Content-Range: bytes 0-1/240" ++ [13;10] ++ bs "content-type: t" ++ [13;10;13;10] ++ [0;1]
   ++ [13;10] ++ bs "--B" ++ [13;10] ++ bs "Content-Range: bytes 3-4/240" ++ [13;10] ++ bs "content-type: t" ++ [13;10;13;10] ++ [3;4]
   ++ [13;10] ++ bs "--B--" ++ [13;10].
 Proof. vm_compute. reflexivity. Qed.
